@@ -212,8 +212,35 @@ func runC18(c *Ctx) {
 			}
 		}
 	}
-	if len(backendCalls) < 4 {
-		oblC.undecided("floor:backend-calls", fn.Pos(), fmt.Sprintf("expected the four backend write calls in ProcessBulk, found %d", len(backendCalls)))
+	// … or inside per-action helpers that the loop calls for each element (plain calls, no go/defer of a backend call)
+	ledgerIface := c.Named(modPath+"/internal/api/backend", "Ledger")
+	loopBody := map[*ssa.BasicBlock]bool{}
+	for _, b := range fn.Blocks {
+		if header.Dominates(b) {
+			loopBody[b] = true
+		}
+	}
+	nHelperCalls := 0
+	for _, lr := range loopReached(c, loopBody) {
+		for _, b := range lr.fn.Blocks {
+			for _, ins := range b.Instrs {
+				switch x := ins.(type) {
+				case *ssa.Go:
+					oblC.violate(kGo, x.Pos(), "a go statement in a helper of the bulk processor: elements are no longer executed strictly in order", nil)
+				case *ssa.Defer:
+					if x.Call.IsInvoke() && namedOf(x.Call.Value.Type()) == ledgerIface {
+						oblC.violate(kGo, x.Pos(), "a backend call is deferred", nil)
+					}
+				case *ssa.Call:
+					if x.Call.IsInvoke() && ledgerIface != nil && namedOf(x.Call.Value.Type()) == ledgerIface {
+						nHelperCalls++
+					}
+				}
+			}
+		}
+	}
+	if len(backendCalls)+nHelperCalls < 4 {
+		oblC.undecided("floor:backend-calls", fn.Pos(), fmt.Sprintf("expected the four backend write calls in ProcessBulk, found %d", len(backendCalls)+nHelperCalls))
 	}
 	// the flag is never reset once the loop runs
 	for _, f := range withLiterals(fn) {
